@@ -90,6 +90,9 @@ type Exec struct {
 	res      *Result
 	objs     map[interface{}]int // objects named by first use, so labels are stable across runs
 
+	// strategy, when set (RunWith), decides every choice instead of the prefix.
+	strategy func(en []Pending) int
+
 	// Prime, when set by the body, lets every thread run up to its first
 	// scheduling point before any choice is made (sound when thread code
 	// before its first point touches nothing shared: the start point is then
@@ -169,6 +172,27 @@ func Point(kind OpKind, op string, obj interface{}, enabled func() bool) {
 
 // Yield is a harness-declared scheduling point.
 func Yield(label string) { Point(OpUser, label, nil, nil) }
+
+// Pending describes an enabled thread at a choice point: its id and the operation it is
+// about to perform ("kind:label").
+type Pending struct {
+	ID int
+	Op string
+}
+
+// RunWith executes body under the scheduler; strat picks the thread to run at every
+// choice point (index into en, which is in canonical order: running thread first).
+func RunWith(horizon int, body func(x *Exec), strat func(en []Pending) int) *Result {
+	if active != nil {
+		panic("sched: nested Run")
+	}
+	x := &Exec{parked: make(chan *Thread), horizon: horizon, res: &Result{}, objs: map[interface{}]int{}, strategy: strat}
+	active = x
+	defer func() { active = nil }()
+	body(x)
+	x.loop()
+	return x.res
+}
 
 // Run executes body (which registers threads) under the scheduler, replaying
 // prefix at the choice points and taking choice 0 afterwards.
@@ -261,7 +285,16 @@ func (x *Exec) loop() {
 		}
 		pick := 0
 		if len(en) > 1 {
-			if nchoice < len(x.prefix) {
+			if x.strategy != nil {
+				pend := make([]Pending, len(en))
+				for i, t := range en {
+					pend[i] = Pending{ID: t.ID, Op: t.kind.String() + ":" + t.label}
+				}
+				pick = x.strategy(pend)
+				if pick < 0 || pick >= len(en) {
+					pick = 0
+				}
+			} else if nchoice < len(x.prefix) {
 				pick = x.prefix[nchoice]
 				if pick < 0 || pick >= len(en) {
 					res.BadPrefix = fmt.Sprintf("choice %d = %d out of range (enabled %d)", nchoice, pick, len(en))
